@@ -26,6 +26,33 @@ Qed.
 
 Definition final_unique := ssort_unique dg_pos pos_leb pos_leb_total pos_leb_trans.
 
+(* A comparison through ONE packed key (line shifted by [k] bits, or-ed with the column) is not the
+   comparison by position: two different positions of one line get the same key as soon as the
+   column reaches 2^k, so the sort with that key keeps them in the order of emission - the order
+   of a map iteration - although every position carries one diagnostic.  (The shape of the seeded
+   change C02-r9-1; the code compares line, then column.) *)
+Definition packed_key (k : N) (p : posn) : N := N.lor (N.shiftl (fst p) k) (snd p).
+Definition final_packed (k : N) (ds : list diag) : list diag :=
+  ssort (fun d => packed_key k (dg_pos d)) N.leb ds.
+
+Lemma packed_key_collides : forall k, exists p q, p <> q /\ packed_key k p = packed_key k q.
+Proof.
+  intros k. exists (1, 0)%N, (1, 2 ^ k)%N. split.
+  - intros E. injection E as E. assert (0 < 2 ^ k)%N by (apply N.neq_0_lt_0, N.pow_nonzero; discriminate). lia.
+  - unfold packed_key. cbn [fst snd]. rewrite N.lor_0_r, N.shiftl_1_l. now rewrite N.lor_diag.
+Qed.
+
+Lemma final_packed_refuted :
+  exists (l l' : list diag), Permutation l l' /\ NoDup (map dg_pos l) /\
+    final l = final l' /\ final_packed 10 l <> final_packed 10 l'.
+Proof.
+  exists [ {| dg_pos := (1, 15)%N; dg_msg := "a" |}; {| dg_pos := (1, 1039)%N; dg_msg := "b" |} ],
+         [ {| dg_pos := (1, 1039)%N; dg_msg := "b" |}; {| dg_pos := (1, 15)%N; dg_msg := "a" |} ].
+  split; [apply perm_swap|]. split.
+  - repeat constructor; cbn; intuition discriminate.
+  - split; [vm_compute; reflexivity|vm_compute; discriminate].
+Qed.
+
 (* ---------------------------------------------------------------------- *)
 (* maps keyed by an ordered type                                          *)
 
